@@ -328,6 +328,48 @@ def run_missing_rule_cases(res):
                     res["sets"].setdefault("missing_rule_exceptions", set()).add(raised)
 
 
+def run_none_shape_cases(res):
+    """None-registered arguments whose shape differs from the output's: the zero must live in the
+    argument's space (reverse) / the output's space (forward)."""
+    import autograd.numpy as anp
+    from autograd.core import make_jvp, make_vjp
+    from autograd.extend import defjvp, defvjp, primitive
+
+    shapes = [((), (3,)), ((3,), (2, 3)), ((2, 1), (2, 3)), ((), (2, 2)), ((3,), ())]
+    for (sa, sb) in shapes:
+        for api in ("defvjp", "defjvp"):
+            res["evaluations"] += 1
+            sig = {"engine": "ext", "family": "none_shape", "api": api, "a": list(sa), "b": list(sb)}
+            case = {"kind": "none_shape", "api": api, "a": list(sa), "b": list(sb)}
+            a0 = onp.ones(sa) * 1.5 if sa else 1.5
+            b0 = onp.ones(sb) * 0.5 if sb else 0.5
+            Q = primitive(lambda a, b: onp.sum(a) * b + onp.sum(a) * 0.0)
+            out_shape = onp.shape(Q(a0, b0))
+            try:
+                with warnings.catch_warnings():
+                    warnings.simplefilter("ignore")
+                    if api == "defvjp":
+                        defvjp(Q, None, lambda ans, a, b: lambda g: g * anp.sum(a))
+                        r = make_vjp(lambda t: Q(t[0], t[1]), (a0, b0))[0](onp.ones(out_shape) if out_shape else 1.0)
+                        bad = onp.shape(r[0]) != onp.shape(a0) or onp.any(onp.asarray(r[0]) != 0) or onp.shape(r[1]) != onp.shape(b0)
+                        got = "zero for None argument has shape %s (argument %s); other %s (argument %s)" % (onp.shape(r[0]), onp.shape(a0), onp.shape(r[1]), onp.shape(b0))
+                    else:
+                        defjvp(Q, None, lambda g, ans, a, b: g * onp.sum(a))
+                        t_a = make_jvp(lambda a: Q(a, b0), a0)(onp.ones(sa) if sa else 1.0)[1]
+                        t_ab = make_jvp(lambda t: Q(t[0], t[1]), (a0, b0))((onp.ones(sa) if sa else 1.0, onp.ones(sb) if sb else 1.0))[1]
+                        bad = onp.shape(t_a) != out_shape or onp.any(onp.asarray(t_a) != 0) or onp.shape(t_ab) != out_shape or not onp.allclose(t_ab, onp.sum(a0) * onp.ones(out_shape))
+                        got = "tangent through a None argument has shape %s (output %s); joint tangent %s" % (onp.shape(t_a), out_shape, common.brief(onp.asarray(t_ab)))
+            except Exception as e:
+                s2 = dict(sig, symptom="exception:" + type(e).__name__)
+                res["violations"].append({"sig": s2, "case": case, "detail": traceback.format_exc()[-300:]})
+                continue
+            if bad:
+                s2 = dict(sig, symptom="none_arg_wrong_space")
+                res["violations"].append({"sig": s2, "case": case, "detail": got})
+                continue
+            res["judged"][sig_key(sig)] = 1
+
+
 def run_checkpoint_case(res, rng, i):
     import autograd.numpy as anp
     from autograd.core import make_vjp
@@ -437,6 +479,8 @@ def run_shard(pid, tier, seed, idx, n):
             res["sets"].setdefault("harness_errors", set()).add(traceback.format_exc()[-400:])
     if idx == 0:
         run_missing_rule_cases(res)
+    if idx == 1 % n:
+        run_none_shape_cases(res)
     ncp = 400 if tier == "quick" else 6000
     for i in range(idx, ncp, n):
         rng = onp.random.Generator(onp.random.PCG64([seed, i, 37]))
@@ -457,6 +501,9 @@ def replay(pid, case):
         run_contract_case(res, case["spec"])
     elif k == "missing":
         run_missing_rule_cases(res)
+        res["violations"] = [v for v in res["violations"] if v["case"] == case]
+    elif k == "none_shape":
+        run_none_shape_cases(res)
         res["violations"] = [v for v in res["violations"] if v["case"] == case]
     else:
         from ..common import dec
